@@ -1039,6 +1039,11 @@ def oracle_queries(w, rng, heavy=False):
     cmp('reachable_frontier_from', lambda x: x.reachable_frontier_from(start))
     end = {q: s + rng.randint(0, 3) for q, s in start.items() if rng.random() < 0.7}
     cmp('findall_operations_between', lambda x: x.findall_operations_between(start, end))
+    cmp('findall_operations_until_blocked', lambda x: x.findall_operations_until_blocked(start, is_blocker=lambda op: len(op.qubits) >= 3))
+    cmp('findall_operations', lambda x: list(x.findall_operations(lambda op: len(op.qubits) == 2)))
+    cmp('factorize', lambda x: [tuple(p.moments) for p in x.factorize()])
+    cmp('has_measurements', lambda x: x.has_measurements())
+    cmp('are_any_measurements_terminal', lambda x: x.are_any_measurements_terminal())
     if heavy and len(f.all_qubits()) <= 4 and n <= 12 and cirq.has_unitary(f):
         import numpy as np
         order = sorted(f.all_qubits())
